@@ -132,6 +132,7 @@ class Reference:
         self.existing: dict = {}      # coords -> [kind, set(members), pass of the last change]
         self.extras: set = set()
         self.ambiguous: list = []     # reasons why no exact comparison is made
+        self.collisions: list = []    # (members so far, members of the colliding group) per same-pass collision
         self.absorbed: set = set()    # members of hybrid / interleaved groups
         self.result: set = set()
         self.optional: set = set()    # singles the statement neither demands nor forbids
@@ -169,6 +170,7 @@ class Reference:
                 # two groups of one pass with the same coordinates: which one keeps its singles depends on
                 # the order the code happens to visit them in; nothing documents that
                 self.ambiguous.append("same_pass_collision")
+                self.collisions.append((set(current[1]), set(group)))
             current[1] |= extras
             current[2] = number
             self.extras |= extras
@@ -186,6 +188,9 @@ class Reference:
                 groups.append(set().union(*(self._members(unit) for unit in comp)))
             if len(comp) >= 4:
                 self.labels.add(f"{name}_component_of_4_or_more_units")
+            plain = [unit[1] for unit in comp if unit[0] == "proto"]
+            if len(plain) >= 5:
+                self.labels.add(f"{name}_chain_of_5_or_more_protoclusters")
         candidates = [unit for unit in units if unit[0] == "cand"]
         for unit in candidates:
             linked = [other for other in candidates if other != unit and related(unit, other)]
@@ -220,6 +225,8 @@ class Reference:
         for comp in comps:
             if len(comp) >= 4:
                 self.labels.add("hybrid_component_of_4_or_more_units")
+            if len(comp) >= 5:
+                self.labels.add("hybrid_component_of_5_or_more_units")
             core = self.core_of(comp)
             members = set(comp)
             for other in everything:
@@ -447,9 +454,13 @@ def check_form(spec: dict) -> dict:
     record, protos = _build_record(spec)
     index_of = {id(proto): index for index, proto in enumerate(protos)}
     defs = _definition_genes(spec)
-    for proto, want in zip(protos, defs):
-        if {cds.get_name() for cds in proto.definition_cdses} != want:
-            return {"nontrivial": False, "classes": ["excluded_definition_genes_differ"]}
+    for index, (proto, want) in enumerate(zip(protos, defs)):
+        # "sharing a defining gene": the defining genes are the genes inside the core (the documented meaning of
+        # the core location) that carry a core function for the product; also asserted by C08
+        got_names = {cds.get_name() for cds in proto.definition_cdses}
+        if got_names != want:
+            raise Violation("P0_definition_genes", {"protocluster": index, "core": spec["protos"][index]["core"],
+                                                    "got": sorted(got_names), "want": sorted(want)})
     wrap = length if circular else None
     orders = [list(perm) for perm in spec["perms"]]
     orders.append([index_of[id(proto)] for proto in record.get_protoclusters()])   # what the record passes on
@@ -548,6 +559,25 @@ def _describe(spec: dict, got: list, model: Reference, repeated_member: bool) ->
         classes.append("observed_member_listed_twice")
     if any(len(p["loc"]["parts"]) > 1 for p in protos):
         classes.append("origin_spanning_protocluster")
+    # groups are merged in the order of their extents while the links come from the cores: count how far the two
+    # orders disagree among related protoclusters
+    inversions = 0
+    for a, b in itertools.combinations(range(count), 2):
+        one, two = protos[a], protos[b]
+        if len(one["loc"]["parts"]) == 1 == len(two["loc"]["parts"]) and len(one["core"]["parts"]) == 1 \
+                and len(two["core"]["parts"]) == 1 and ring.overlap(one["loc"], two["loc"]):
+            by_core = one["core"]["parts"][0][0] - two["core"]["parts"][0][0]
+            by_extent = one["loc"]["parts"][0][0] - two["loc"]["parts"][0][0]
+            if by_core * by_extent < 0:
+                inversions += 1
+    if inversions >= 3:
+        classes.append("extent_order_against_core_order_3_or_more_pairs")
+    for index, proto in enumerate(protos):
+        if len(proto["core"]["parts"]) > 1 and not proto.get("sideloaded") and any(
+                proto["product"] in gene.get("core_for", []) and ring.contains(proto["loc"], gene["loc"])
+                and not ring.contains(proto["core"], gene["loc"]) for gene in spec["genes"]):
+            classes.append("spanning_core_with_own_core_gene_only_in_neighbourhood")
+            break
     if any(p.get("sideloaded") for p in protos):
         classes.append("sideloaded_protocluster")
     classes.extend(sorted(model.labels))
@@ -558,14 +588,35 @@ def _describe(spec: dict, got: list, model: Reference, repeated_member: bool) ->
 
 
 SUBCHECKS = {"form": check_form, "form_enum": check_form, "form_twins_enum": check_form,
-             "form_bridge_enum": check_form, "form_spanning_enum": check_form}
+             "form_bridge_enum": check_form, "form_spanning_enum": check_form, "form_chain_enum": check_form}
 
 
-# All C05 findings are repaired in /repo (known_findings.json, status fixed; witnesses in replays/C05/), so nothing
-# is excluded any more. The names stay so that the fixed entries keep referring to something; they never match.
+def _sig_same_pass_tie(sub: str, spec: dict, clause: str, detail: dict) -> bool:
+    """ C05-same-pass-collision-order. Failure mode: order dependence and nothing else, and the outcomes differ only
+        in singles. Input class: two groups of one pass with the same coordinates (Reference.collisions) that hold
+        a pair of protoclusters, one in each, with the same core and extent (so that no sort by location can tell
+        the groups apart and the input order decides which is visited second); every differing single belongs to a
+        member of such a pair of groups. """
+    if clause != "P4_order" or not isinstance(detail, dict) or detail.get("all_failed") != ["P4_order"]:
+        return False
+    differing = (detail.get("only_a") or []) + (detail.get("only_b") or [])
+    if not differing or any(kind != SINGLE or len(members) != 1 for kind, members, _ in differing):
+        return False
+    protos = spec["protos"]
+    involved: set = set()
+    for before, group in Reference(spec, _make_span(spec)).collisions:
+        if any(protos[a]["core"]["parts"] == protos[b]["core"]["parts"]
+               and protos[a]["loc"]["parts"] == protos[b]["loc"]["parts"] for a in before for b in group - before):
+            involved |= before | group
+    return all(members[0] in involved for _, members, _ in differing)
+
+
+# The five findings of the first round are repaired in /repo (known_findings.json, status fixed; witnesses in
+# replays/C05/); their names stay so that the fixed entries keep referring to something, they never match.
 SIGNATURES: dict = {name: (lambda sub, spec, clause, detail: False)
                     for name in ("attached_single", "merge_single_pass", "candidate_scan_start",
                                  "cross_origin_partial_group")}
+SIGNATURES["same_pass_collision_order"] = _sig_same_pass_tie
 
 
 # --------------------------------------------------------------------------- generator
@@ -717,6 +768,66 @@ def spanning_specs(draw):
             "family": "spanning_single_and_singles"}
 
 
+def _chain_case(links: list, widths: list, starts: list, length: int, circular: bool, offset: int) -> tuple:
+    """ a chain of protoclusters whose cores follow each other left to right; link i says how core i and core
+        i+1 are related: "gene" (cores overlap by 3-5 bases holding a gene that is a core gene of both products),
+        "core" (cores overlap by one base, no gene in common), "extent" (cores one base apart, extents overlap);
+        starts[i] = how far the extent of protocluster i reaches to the left of the first core (so the order of the
+        extent starts is free while the cores stay in chain order).  -> (genes, protoclusters) """
+    first = max(starts) + 1
+    cores = []
+    genes = []
+    cursor = first
+    for index, width in enumerate(widths):
+        cores.append((cursor, width))
+        if index == len(links):
+            break
+        link = links[index]
+        if link == "gene":
+            at = cursor + width - 3
+            loc = _rotated(at, 3, offset, length, circular)
+            loc["kind"] = "span" if len(loc["parts"]) > 1 else "simple"
+            genes.append({"name": f"g{index}", "loc": loc, "core_for": [f"c{index}", f"c{index + 1}"]})
+            cursor = at
+        elif link == "core":
+            cursor = cursor + width - 1
+        else:
+            cursor = cursor + width + 1
+    protos = []
+    for index, (start, width) in enumerate(cores):
+        left = start - (first - 1 - starts[index])
+        right = 2 if index < len(links) and links[index] == "extent" else 0
+        begin = (start + offset) % length if circular else start
+        protos.append({"core": ring.arc_to_loc(begin, width, length, 1),
+                       "loc": _extent(begin, width, left, right, length, circular), "product": f"c{index}"})
+    return genes, protos
+
+
+@st.composite
+def chain_specs(draw):
+    """ forced family: chains of 4-7 protoclusters linked by shared genes / overlapping cores / overlapping extents,
+        with the extent starts in any order relative to the cores """
+    count = draw(st.integers(4, 7))
+    links = [draw(st.sampled_from(["gene", "gene", "gene", "core", "core", "extent"])) for _ in range(count - 1)]
+    if draw(st.booleans()):
+        links = [draw(st.sampled_from(["gene", "core"]))] * (count - 1)
+    widths = [draw(st.integers(8, 30)) for _ in range(count)]
+    spread = draw(st.sampled_from([1, 2, 7]))
+    ranks = list(draw(st.permutations(list(range(count)))))
+    starts = [rank * spread for rank in ranks]
+    total = max(starts) + 2 + sum(widths) + count + 4
+    circular = draw(st.booleans())
+    length = max(60, total + draw(st.integers(0, 60)))
+    offset = draw(st.integers(0, length - 1)) if circular else 0
+    genes, protos = _chain_case(links, widths, starts, length, circular, offset)
+    order = list(draw(st.permutations(list(range(count)))))
+    protos = [protos[i] for i in order]
+    indices = list(range(count))
+    perms = [indices, indices[::-1]] + [list(draw(st.permutations(indices))) for _ in range(3)]
+    return {"L": length, "circular": circular, "genes": genes, "protos": protos, "perms": perms,
+            "family": "chain_with_scrambled_extents"}
+
+
 @st.composite
 def form_specs(draw):
     length = draw(gen.lengths(60, 3000))
@@ -804,11 +915,16 @@ def form_specs(draw):
     # gene functions: biased to the products of the protoclusters whose core holds the gene
     for gene in genes:
         holders = sorted({p["product"] for p in protos if ring.contains(p["core"], gene["loc"])})
+        near = sorted({p["product"] for p in protos if ring.contains(p["loc"], gene["loc"])
+                       and not ring.contains(p["core"], gene["loc"])})
         style = draw(st.integers(0, 5))
         if style <= 2 and holders:
             gene["core_for"] = holders if style else draw(st.lists(st.sampled_from(holders), unique=True, max_size=2))
         elif style == 3:
             gene["core_for"] = draw(st.lists(st.sampled_from(PRODUCTS), unique=True, max_size=3))
+        elif style == 4 and near:
+            # a core gene of the right product next to the core, not in it: not a defining gene
+            gene["core_for"] = sorted(set(near) | set(holders[:1]))
         else:
             gene["core_for"] = []
     for one, two in twins:
@@ -921,6 +1037,24 @@ def enum_bridge_cases(cells: int):
     return cases
 
 
+def enum_chain_cases(sizes: tuple):
+    """ chains of n protoclusters (cores left to right, each consecutive pair sharing one defining gene, or - second
+        variant - only overlapping in the cores) x every order of the n extent starts; line, and for n <= 5 the ring """
+    def cases():
+        for count in sizes:
+            indices = list(range(count))
+            perms = [indices, indices[::-1], indices[1::2] + indices[0::2], indices[2:] + indices[:2]]
+            for link in ("gene", "core"):
+                for circular in ((False, True) if count <= 5 else (False,)):
+                    for ranks in itertools.permutations(indices):
+                        starts = [2 * rank for rank in ranks]
+                        length = 2 * count + 2 + 10 * count + 12
+                        genes, protos = _chain_case([link] * (count - 1), [10] * count, starts, length, circular, 0)
+                        yield {"L": length, "circular": circular, "genes": genes, "protos": protos, "perms": perms,
+                               "family": "chain_with_scrambled_extents"}
+    return cases
+
+
 def enum_spanning_cases(cells: int):
     """ a ring, no genes: every protocluster whose extent lies across the origin (any arc of cells through 0 shorter
         than the ring; core = its first cell, the cell before or after the origin, or its last cell) x every set of
@@ -951,11 +1085,14 @@ def run(ctx) -> None:
     plan = ctx.pick([(7, 2), (5, 3)], [(8, 2), (6, 3), (6, 4)])
     ctx.extra["enumeration_plan"] = [{"cells": cells, "protoclusters": count} for cells, count in plan]
     ctx.enum("form_enum", enum_cases(plan), shards=ctx.pick(8, 16), stop_after=3)
-    ctx.extra["twin_enumeration_cells"] = ctx.pick(7, 10)
-    ctx.enum("form_twins_enum", enum_twin_cases(ctx.pick(7, 10)), shards=ctx.pick(8, 16), stop_after=3)
+    ctx.extra["twin_enumeration_cells"] = ctx.pick(6, 10)
+    ctx.enum("form_twins_enum", enum_twin_cases(ctx.pick(6, 10)), shards=ctx.pick(8, 16), stop_after=3)
     ctx.extra["bridge_enumeration_cells"] = ctx.pick(6, 7)
     ctx.enum("form_bridge_enum", enum_bridge_cases(ctx.pick(6, 7)), shards=ctx.pick(8, 16), stop_after=3)
     ctx.extra["spanning_enumeration_cells"] = ctx.pick(7, 9)
     ctx.enum("form_spanning_enum", enum_spanning_cases(ctx.pick(7, 9)), shards=ctx.pick(8, 16), stop_after=3)
-    mixed = st.one_of(form_specs(), form_specs(), form_specs(), bridge_specs(), spanning_specs())
+    ctx.extra["chain_enumeration_sizes"] = list(ctx.pick((4, 5, 6), (4, 5, 6, 7)))
+    ctx.enum("form_chain_enum", enum_chain_cases(ctx.pick((4, 5, 6), (4, 5, 6, 7))), shards=ctx.pick(8, 16),
+             stop_after=3)
+    mixed = st.one_of(form_specs(), form_specs(), form_specs(), bridge_specs(), spanning_specs(), chain_specs())
     ctx.hyp("form", mixed, max_examples=ctx.pick(2000, 30000), shards=ctx.pick(8, 16))
